@@ -456,19 +456,57 @@ func runIT9(c *Ctx, s *Sink) {
 		s.Undecided(nil, key, 0, "function not found")
 		return
 	}
-	_ = p
+	// which boolean fields are per clone and which are shared: Split() creates the former afresh
+	// (abool.New()) and copies the latter from the original — names are not relied upon
+	perClone, shared := map[types.Object]bool{}, map[types.Object]bool{}
+	if sd, sp := c.FindFunc("pkg/obiiter", "(IBioSequence).Split"); sd != nil {
+		sinfo := sp.TypesInfo
+		ast.Inspect(sd.Body, func(n ast.Node) bool {
+			cl, ok := n.(*ast.CompositeLit)
+			if !ok {
+				return true
+			}
+			for _, el := range cl.Elts {
+				kv, ok := el.(*ast.KeyValueExpr)
+				if !ok {
+					continue
+				}
+				kid, ok := kv.Key.(*ast.Ident)
+				if !ok {
+					continue
+				}
+				fo := sinfo.ObjectOf(kid)
+				if fo == nil || !strings.HasSuffix(types.TypeString(fo.Type(), nil), "AtomicBool") {
+					continue
+				}
+				switch ast.Unparen(kv.Value).(type) {
+				case *ast.CallExpr:
+					perClone[fo] = true
+				case *ast.SelectorExpr:
+					shared[fo] = true
+				}
+			}
+			return true
+		})
+	}
+	info := p.TypesInfo
 	var pb, fin token.Pos
 	ast.Inspect(fd.Body, func(n ast.Node) bool {
 		if sel, ok := n.(*ast.SelectorExpr); ok {
-			if sel.Sel.Name == "pushBack" && pb == token.NoPos {
+			fo := info.ObjectOf(sel.Sel)
+			if perClone[fo] && pb == token.NoPos {
 				pb = sel.Pos()
 			}
-			if sel.Sel.Name == "finished" && fin == token.NoPos {
+			if shared[fo] && fin == token.NoPos {
 				fin = sel.Pos()
 			}
 		}
 		return true
 	})
+	if len(perClone) == 0 || len(shared) == 0 {
+		s.Undecided(nil, key, fd.Pos(), "cannot tell the per-clone flag from the shared one in Split()")
+		return
+	}
 	switch {
 	case pb == token.NoPos:
 		s.Pass(nil, key, fd.Pos(), "Next does not implement push-back")
